@@ -36,9 +36,15 @@ LEVEL_TEXT = ("Machine-checked proof (Coq 8.16) over an executable model of the 
               "barriers) with the property's own oracle evaluated on the implementation.")
 LEVEL_NOTE = ("Trusted: Coq kernel; extraction and ocaml/driver.ml for the correspondence only; the translator's regexes; the "
               "barrier argument for determinism. Outside the model: ConfigState::dispatch (accepted/rejected is case data), audit "
-              "emission, event subscription fan-out, fork/exec and upgrade of processes, the Channel (C11). Query/status/stop "
-              "verbs answer OK by design whatever the workers did: ok_is_sound is stated for the verbs whose verdict claims "
-              "application (worker verbs, load-state) and the others are an open finding.")
+              "emission, event subscription fan-out, fork/exec and upgrade of processes, the Channel (C11). ok_is_sound covers the "
+              "tasks whose OK claims application (worker verbs, load-state, soft/hard stop). Query, metrics and status tasks answer OK "
+              "with whatever was gathered: by design for status (the per-worker run state is the content of the answer); for "
+              "query/metrics the content lists only the workers that answered and the status stays OK — kept as an open finding, not "
+              "changed (a CLI-visible semantic decision). A task without timeout (load-state, soft stop) still waits without bound for "
+              "a worker that is alive but silent; a worker whose channel closes is counted as failed at once. A response that arrives "
+              "in the same loop batch as the request that scattered it (impossible for a real worker: the request is flushed one "
+              "iteration later) would be dropped; a client that pipelines two requests in one read has all but the last dropped "
+              "(responses carry no id, the protocol is one request at a time).")
 TECHNIQUE = "Rocq/Coq proof over an executable Gallina model + source translator (decision tables) + differential correspondence (extracted OCaml vs real CommandHub)"
 CLAIMED = True
 
@@ -228,6 +234,19 @@ def translate():
     if not re.search(r"Timeout::None => None,\s*Timeout::Default => Some\(Duration::from_secs\(self\.config\.worker_timeout as u64\)\),", nt) or \
        not re.search(r"\.map\(\|duration\| Instant::now\(\) \+ duration\);", nt):
         fails.append("Server::new_task: deadline computation no longer recognised")
+    closes = bool(re.search(r"WorkerResult::CloseSession => \{\s*self\.handle_worker_close\(&token\);\s*self\.fail_requests_in_flight_to\(worker_id\);\s*\}", run))
+    if not closes and not re.search(r"WorkerResult::CloseSession => self\.handle_worker_close\(&token\),", run):
+        fails.append("CommandHub::run: the CloseSession arm is no longer recognised")
+    if closes:
+        ff = body_after(srv, r"fn fail_requests_in_flight_to\(&mut self, worker_id: WorkerId\)\s*\{", "fail_requests_in_flight_to", fails)
+        if not re.search(r"\.filter\(\|id\| worker_of_request_id\(id\) == Some\(worker_id\)\)", ff) or \
+           not re.search(r"for id in orphans \{\s*self\.handle_worker_response\(\s*worker_id,\s*WorkerResponse \{\s*id,\s*status: ResponseStatus::Failure\.into\(\),", ff):
+            fails.append("fail_requests_in_flight_to: no longer answers a failure for every request in flight to that worker")
+            closes = False
+        if not re.search(r"fn worker_of_request_id\(id: &str\) -> Option<WorkerId> \{\s*id\.rsplitn\(4, '-'\)\.nth\(2\)\?\.parse\(\)\.ok\(\)\s*\}", srv):
+            fails.append("worker_of_request_id: no longer the third field from the right of the request id")
+            closes = False
+    g.append("Definition close_fails_in_flight : bool := %s." % ("true" if closes else "false"))
     cw = body_after(srv, r"pub fn close_worker\(", "Server::close_worker", fails)
     if not re.search(r"worker\.run_state = RunState::Stopped;", cw):
         fails.append("Server::close_worker: no longer marks the worker Stopped")
@@ -253,19 +272,26 @@ def translate():
     else:
         g.append("Definition load_ok (errors : nat) : bool := %s." % cond_to_coq(m.group(1), {"errors": "errors"}, fails, "LoadStateTask verdict"))
     st = body_after(rq, r"impl GatheringTask for StopTask\s*\{", "impl GatheringTask for StopTask", fails)
+    atoms = {"timed_out": "timed_out", "self.hardness": "hardness", "self.gatherer.errors": "errors"}
     m = re.search(r"let hard_stop_timed_out = ([^;]*);\s*if hard_stop_timed_out \{\s*client\.finish_failure\(", st)
+    m2 = re.search(r"if hard_stop_timed_out \{\s*\} else if ([^{}]*?) \{\s*client\.finish_failure\(.*?\} else \{\s*client\.finish_ok\(", st, re.S)
+    m2b = re.search(r"if !hard_stop_timed_out \{\s*client\.finish_ok\(", st)
     m_old = re.search(r"if (timed_out && self\.hardness) \{\s*client\.finish_failure\(", st)
-    atoms = {"timed_out": "timed_out", "self.hardness": "hardness"}
-    if m:
-        g.append("Definition stop_fails (timed_out hardness : bool) : bool := %s." % cond_to_coq(m.group(1), atoms, fails, "StopTask verdict"))
-        guarded = bool(re.search(r"if !hard_stop_timed_out \{\s*client\.finish_ok\(", st))
-        g.append("Definition stop_ok_after_failure : bool := %s." % ("false" if guarded else "true"))
+    if m and m2:
+        g.append("Definition stop_fails (timed_out hardness : bool) (errors : nat) : bool := (%s || %s)."
+                 % (cond_to_coq(m.group(1), atoms, fails, "StopTask verdict"), cond_to_coq(m2.group(1), atoms, fails, "StopTask verdict")))
+        g.append("Definition stop_ok_after_failure : bool := false.")
+    elif m and m2b:
+        g.append("Definition stop_fails (timed_out hardness : bool) (errors : nat) : bool := %s." % cond_to_coq(m.group(1), atoms, fails, "StopTask verdict"))
+        g.append("Definition stop_ok_after_failure : bool := false.")
     elif m_old:
-        g.append("Definition stop_fails (timed_out hardness : bool) : bool := %s." % cond_to_coq(m_old.group(1), atoms, fails, "StopTask verdict"))
+        g.append("Definition stop_fails (timed_out hardness : bool) (errors : nat) : bool := %s." % cond_to_coq(m_old.group(1), atoms, fails, "StopTask verdict"))
         g.append("Definition stop_ok_after_failure : bool := true.")
     else:
         fails.append("StopTask::on_finish: final answer not recognised")
-        g += ["Definition stop_fails (timed_out hardness : bool) : bool := false.", "Definition stop_ok_after_failure : bool := true."]
+        g += ["Definition stop_fails (timed_out hardness : bool) (errors : nat) : bool := false.", "Definition stop_ok_after_failure : bool := true."]
+    if len(re.findall(r"client\.finish_(?:ok|failure)\(", st)) != 3:
+        fails.append("StopTask::on_finish: expected two finish_failure and one finish_ok")
     if not re.search(r"server\.run_state = ServerState::Stopping;", st):
         fails.append("StopTask::on_finish: no longer moves the server to Stopping")
     for name, what in (("QueryClustersTask", "Successfully queried clusters"), ("StatusTask", "Successfully collected the status of workers")):
@@ -320,7 +346,7 @@ def translate():
 # generator
 
 SCATTER = ["wok", "wok", "wok", "query", "status", "metrics"]
-LOCALS = ["local", "wfail", "loadmissing", "none", "launch", "retsock"]
+LOCALS = ["local", "wfail", "loadmissing", "none", "launch", "retsock", "reloadbad"]
 
 
 class Sim:
@@ -347,7 +373,7 @@ class Sim:
 
     def req(self, c, verb, n=0):
         self.ops.append(["req", c, verb] + ([n] if verb == "load" else []))
-        if verb in ("local", "wfail", "loadmissing", "none", "launch", "retsock"):
+        if verb in ("local", "wfail", "loadmissing", "none", "launch", "retsock", "reloadbad"):
             return None
         per = n if verb == "load" else 1
         t = dict(client=c, verb=verb, timed=verb not in ("load", "softstop"), at=self.logical,
